@@ -827,7 +827,19 @@ func TestC08(t *testing.T) {
 		if _, err := sub.CreateSubscription(w.Ctx, &pubsubpb.Subscription{Name: uname, Topic: "projects/p/topics/t", Filter: "attributes:seed"}); err != nil {
 			t.Fatal(err)
 		}
+		// (and a subscription that has no filter yet: its first filter is validated like any other)
+		const uname0 = "projects/p/subscriptions/upd0"
+		if _, err := sub.CreateSubscription(w.Ctx, &pubsubpb.Subscription{Name: uname0, Topic: "projects/p/topics/t"}); err != nil {
+			t.Fatal(err)
+		}
+		var tryUpdateOn func(uname, s string, wantOK bool) bool
 		tryUpdate := func(s string, wantOK bool) bool {
+			if !wantOK && !tryUpdateOn(uname0, s, false) {
+				return false
+			}
+			return tryUpdateOn(uname, s, wantOK)
+		}
+		tryUpdateOn = func(uname, s string, wantOK bool) bool {
 			if strings.ToValidUTF8(s, "") != s || s == "" {
 				return true
 			}
@@ -845,7 +857,7 @@ func TestC08(t *testing.T) {
 				return false
 			}
 			if !wantOK && (err == nil || after.Filter != before.Filter) {
-				violate("api-update", fmt.Sprintf("UpdateSubscription with the non-sentence %q as filter: err=%v, stored filter %q -> %q", s, err, before.Filter, after.Filter), true, s)
+				violate("api-update", fmt.Sprintf("UpdateSubscription of %s with the non-sentence %q as filter: err=%v, stored filter %q -> %q", uname, s, err, before.Filter, after.Filter), true, s)
 				return false
 			}
 			return true
